@@ -262,6 +262,7 @@ func runC13(c *core.Ctx, o Options) {
 	}
 	// ---- Z3 + Z5
 	checkCloseChain(c, "Z3")
+	checkAcceptedOwned(c, "Z3", lib)
 	checkTeardownReach(c, "Z5")
 	// ---- Z4
 	checkNotification(c, "Z4", lib)
@@ -1034,4 +1035,74 @@ func wrapDominates(body, siteFn *ssa.Function, site ssa.Instruction) bool {
 		at, f = mk, parent
 	}
 	return an.Dominates(wrap, at)
+}
+
+// checkAcceptedOwned: a socket returned by Accept is the library's to close. On every path from a successful Accept (error nil)
+// to the next iteration or to the end of the accepting function, the socket is handed to a served connection (go serve(…, conn))
+// or closed; otherwise it stays open for ever and the peer is never told that the connection is over.
+func checkAcceptedOwned(c *core.Ctx, rule string, lib []*ssa.Function) {
+	n := 0
+	for _, fn := range lib {
+		var acc *ssa.Call
+		an.AllInstrs(fn, func(in ssa.Instruction) {
+			if call, ok := in.(*ssa.Call); ok && call.Call.IsInvoke() && call.Call.Method.Name() == "Accept" && an.TypeIs(call.Call.Value.Type(), "net", "Listener") {
+				acc = call
+			}
+		})
+		if acc == nil {
+			continue
+		}
+		n++
+		var conn, errv ssa.Value
+		for _, ref := range *acc.Referrers() {
+			if ex, ok := ref.(*ssa.Extract); ok {
+				if ex.Index == 0 {
+					conn = ex
+				} else {
+					errv = ex
+				}
+			}
+		}
+		paths, _ := an.EnumPaths(fn, 4096)
+		bad := ""
+		nOK := 0
+		for _, p := range paths {
+			if !p.Passes(acc) || p.Panic {
+				continue
+			}
+			// success: the path has tested the error nil
+			ok := false
+			for _, a := range p.Atoms {
+				if bo, isB := a.Val.(*ssa.BinOp); isB && a.Rel == "==" && a.R == "nil" && (bo.X == errv || bo.Y == errv) {
+					ok = true
+				}
+			}
+			if !ok {
+				continue
+			}
+			nOK++
+			owned := false
+			for _, b := range p.Blocks {
+				for _, in := range b.Instrs {
+					cc := an.CallOf(in)
+					if cc == nil {
+						continue
+					}
+					for _, a := range cc.Args {
+						if a == conn {
+							owned = true // handed to a function (serve) or closed
+						}
+					}
+					if cc.IsInvoke() && cc.Value == conn && cc.Method.Name() == "Close" {
+						owned = true
+					}
+				}
+			}
+			if !owned {
+				bad = "after a successful Accept the path [" + p.CondString() + "] neither serves nor closes the accepted socket"
+			}
+		}
+		c.Check(bad == "" && nOK > 0, rule, an.NameOf(fn), "an accepted socket is always served or closed", acc.Pos(), fmt.Sprintf("%d success path(s) hand the socket on", nOK), bad)
+	}
+	c.Check(n >= 1, rule, "", "Accept call found", token.NoPos, fmt.Sprint(n), "no net.Listener.Accept call in the library (anchor moved)")
 }
